@@ -314,7 +314,7 @@ class YP(object):
     def findall(self, template, goal, bag):
         '''findall/3 returns values according to template into bag, that satisfy goal.'''
         # assumes goal is instantiated
-        q = self.query(goal._name,goal._args)
+        q = self.call(goal)
         results = self.makelist([ get_value(template) for r in q ])
         for y in unify(bag, results):
             yield False
